@@ -139,7 +139,8 @@ PROPS = {
         families=[dict(mode="det", name="mq_spmc", quick=480, thorough=12000,
                        nontrivial=r"BlockPtr\.0@\d+ cas \S+ \S+ \S+ 0 ")],
         trusted_base=TB_COMMON + [
-            "refinement level B -> level A (blocks, `used`, packed head word, re-used addresses -> logical indices) is checked by executing the level-A steps alongside every replayed trace (Model/Queue/SpmcSim.lean), not proved",
+            "two-level models: the properties are proved at level A (logical indices); the replayed per-atomic-operation model (level B: blocks, `used`, packed head word, adversarially re-used addresses, steal_into, Drop) is PROVED to refine level A and to be block safe for every number of actors and every schedule (Props/C04: spmc_refines_A, spmc_refines_A_step, spmc_block_safe, spmcB_*); the same simulation is re-checked executably on every replayed trace (Model/Queue/SpmcSim.lean)",
+            "the level-B `step` builds in the API discipline the Rust type system enforces: Drop(q) starts only when no actor is inside a routine holding a reference to q (steal_into also holds its own queue), no routine starts on a queue whose Drop has started, only the queues q < n exist; two block generations may compare equal by address only if one was freed before the other was allocated",
             "non-atomic slot accesses (`set`/`get`/`copy_to_bulk`) are not hooked: the write is folded into the owner's `tail.index` unsync load, the reads into the taker's `used.fetch_sub` (they are data-race free iff spmc_no_uninit holds)",
             "address re-use of freed blocks (ABA) is an adversarial choice of the level-B model; in the real runs a recycling #[global_allocator] defined in harness/src/scn/mq_spmc.rs hands freed 32-byte-aligned blocks out again LIFO (active once an mq_spmc scenario was built in the process)",
         ],
@@ -408,18 +409,22 @@ PROPS["C13"] = dict(
         # the residue of F10 (open known finding F10rw): RwLockReadGuard::drop -> read_unlock -> rlock.lock() parks under reader
         # contention, also while the reader unwinds. Oracles only, stable prefix `F10rw:`; one scenario per process
         dict(mode="live", name="panicrw", quick=12, thorough=12, nontrivial=r".", timeout=600),
+        # contended locks: a holder panics inside a Mutex / RwLock write guard with 1-3 waiters (lock / write / read / try_*,
+        # coroutines and threads) queued or arriving; the dropper is stalled between poison.done and the release
+        dict(mode="live", name="panichand", quick=300, thorough=3000, nontrivial=r"child\.panic", timeout=600),
     ],
     trusted_base=TB_COMMON + [
         "rustc's unwinding (every guard on the stack is dropped exactly once, innermost first) and the generator crate's catch_unwind / panic capture are taken by contract",
         "pool.rs and Done::drop_coroutine are not hooked: the pool / local-data steps of worker_survives are modelled from the source and tied to the code only by the oracles (coroutines spawned after the panics complete on every worker)",
         "thread::panicking() is modelled as 'this coroutine is unwinding'; std keeps the flag per thread, so this holds of the code only while no coroutine is suspended during an unwind (finding F10). With F10.patch the scope exits (coroutine::scope, cqueue::scope) wait outside the unwind; the assumption is checked on every run by the F10 probe of families scope / panic / panicscope / paniccq (strict: an 'F10:' line is a violation). Not covered by the patch: Park::drop's wait_kernel spin and user destructors that block while unwinding (README-C14)",
-        "locks are used without contention in family panic: waiter hand-over is C05/C12; the model here uses their specification held -> released",
+        "locks are used without contention in families panic / panicscope: waiter hand-over (queues, wake-ups) is C05/C12; the model here uses their specification held -> released. Family panichand contends the lock: its replay ties the order of the two halves of a guard drop by an unwind (poison.done's store, then the cnt.fetch_sub that releases the lock word) and the flag value every grant reads to the model; the other operations of sync/mutex.rs / sync/rwlock.rs in its traces are perturbation points only (skipped by the replay)",
+        "get_panic_data / context.err live in the generator crate and are not hooked: the stack-history model (wseq, panic_slot_is_own_payload_on_reused_stack) is tied to the code by the replay of coroutine_impl.panic opt.store in run_coroutine's panic branch (a detached panicker that skips it diverges) and by the foreign-payload oracle",
     ],
     assumptions=[
         "family paniccq is checked by its oracles only (its traces are not replayed: the cqueue events are C16's model)",
         "select! owners re-raising an arm's panic (F9) belong to C16",
     ],
-    rule="live mode: 2-5 rounds x 2-5 coroutines (panic before/after yields, holding a Mutex and/or RwLock write guard; holders cancelled while holding; unrelated workers) over the reused stack pool, 8 fresh coroutines afterwards; non-trivial = at least one injected panic; distinct = SHA-1 of the canonical trace",
+    rule="live mode: 2-5 rounds x 2-5 coroutines (panic before/after yields, holding a Mutex and/or RwLock write guard; holders cancelled while holding; detached panickers whose JoinHandle is dropped before / while they run; victims cancelled while running; unrelated workers) over the reused stack pool (capacity 6), 8 fresh coroutines afterwards; family panichand: one holder that panics inside a Mutex / RwLock write guard (1 in 4: normal end) and 1-3 waiters (coroutines, threads; lock / write / read / polling try_lock / try_write / try_read) queued or arriving, perturbation at every hooked operation of sync/poison.rs, sync/mutex.rs, sync/rwlock.rs; non-trivial = at least one injected panic; distinct = SHA-1 of the canonical trace",
 )
 
 PROPS["C14"] = dict(
